@@ -178,9 +178,32 @@ func printField(sb *strings.Builder, indent, word string, u uField, extra ...str
 	sb.WriteString(indent + "}\n")
 }
 
-func (d *entityDecl) j5s() string {
+// fileDecl is one source file: entity declarations of one package.
+type fileDecl struct {
+	Ents []*entityDecl
+}
+
+func (f *fileDecl) pkg() string      { return f.Ents[0].Pkg }
+func (f *fileDecl) filename() string { return f.Ents[0].filename() }
+func (f *fileDecl) coq() string {
+	return coqList(f.Ents, func(d *entityDecl) string { return d.coq() })
+}
+func (f *fileDecl) j5s() string {
 	var sb strings.Builder
-	sb.WriteString("package " + d.Pkg + "\n\nentity " + d.Name + " {\n")
+	sb.WriteString("package " + f.pkg() + "\n")
+	for _, d := range f.Ents {
+		sb.WriteString("\n" + d.block())
+	}
+	return sb.String()
+}
+
+func (d *entityDecl) j5s() string {
+	return "package " + d.Pkg + "\n\n" + d.block()
+}
+
+func (d *entityDecl) block() string {
+	var sb strings.Builder
+	sb.WriteString("entity " + d.Name + " {\n")
 	if d.BaseURL != "" {
 		fmt.Fprintf(&sb, "\tbaseUrlPath = %q\n", d.BaseURL)
 	}
